@@ -7,6 +7,7 @@
   either) and sorted-set keys have exactly two parts (the two appliers differ on other shapes).
 -/
 import NutsProofs.Lemmas.Reopen
+import NutsProofs.Lemmas.Replay
 namespace NutsProofs.ReopenAll
 open Nuts Nuts.Model Nuts.Model.DB NutsProofs NutsProofs.Reopen
 
@@ -537,5 +538,89 @@ theorem allInv_ops (ops : List OpA) (s : State) (h : AllInv s) (hok : OpsOkA s o
     | reopen o =>
       obtain ⟨hm, hrest⟩ := hok
       exact ih _ (allInv_reopen s h o hm) hrest
+
+/-! ### a crash inside `Commit`, records of any structure -/
+
+/-- the state when the process dies after the first `j` records of `t` are written (none of them the last) -/
+def crashAfterA (s : State) (t : List Rec) (j : Nat) : State := (t.take j).foldl (fun s r => writeRec s r false) s
+
+theorem crash_shape_any (recs : List Rec) (s : State) (h : Shape s) :
+    Shape (recs.foldl (fun s r => writeRec s r false) s) ∧
+    ∃ extra : List LogRec, extra.map (·.1) = recs ∧
+      allRecs (recs.foldl (fun s r => writeRec s r false) s).files = allRecs s.files ++ extra := by
+  induction recs generalizing s with
+  | nil => exact ⟨h, [], rfl, by simp⟩
+  | cons r rest ih =>
+    have hstep : Shape (writeRec s r false) ∧ ∃ fid pos, allRecs (writeRec s r false).files = allRecs s.files ++ [(markLast r false, fid, pos)] := by
+      by_cases hds : r.ds = dsKV
+      · obtain ⟨h1, ⟨fid, pos, h2, _⟩, _, _⟩ := writeRec_kv s r false h hds
+        exact ⟨h1, fid, pos, h2⟩
+      · obtain ⟨h1, ⟨fid, pos, h2⟩, _, _, _, _⟩ := writeRec_other s r false h hds
+        exact ⟨h1, fid, pos, h2⟩
+    obtain ⟨hs1, fid, pos, hrecs1⟩ := hstep
+    obtain ⟨hs2, extra, hex, hfiles⟩ := ih (writeRec s r false) hs1
+    refine ⟨hs2, (r, fid, pos) :: extra, by simp [hex], ?_⟩
+    simp only [List.foldl_cons]
+    rw [hfiles, hrecs1]
+    simp [markLast]
+
+theorem noPanic_prefix (v : SV) (a b : List Rec) (c : Bool) (h : NoPanic v (a ++ b) c) : NoPanic v a c :=
+  ((noPanic_append v a b c).mp h).1
+
+/-- `Open` on a directory whose log is a committed log `L` followed by unmarked records `E` of a fresh
+transaction: the indexes and structures of `L` alone -/
+theorem open_ignores_suffix_any (fs : List File) (opt : Opts) (hm : opt.mode = 0) (L E : List LogRec)
+    (hne : fs ≠ []) (hunt : ∀ g ∈ fs, g.torn = false) (hrecs : allRecs fs = L ++ E)
+    (hLc : ∀ x ∈ L, x.1.txid ∈ committedIds L) (hnp : NoPanic emptySV (L.map (·.1)) false)
+    (hEs : ∀ x ∈ E, x.1.status = 0) (hEf : ∀ x ∈ E, ∀ y ∈ L, y.1.txid ≠ x.1.txid) :
+    (openDB opt fs).2 = .ok () ∧ (openDB opt fs).1.kv = kvOfLog (L.filter isKVrec) ∧
+    sv (openDB opt fs).1 = foldSV emptySV (L.map (·.1)) false ∧
+    (∀ id, id ∈ (openDB opt fs).1.committed ↔ id ∈ committedIds L) := by
+  have hens := fileEnsure_max fs hne
+  have hemp : fs.isEmpty = false := by cases fs with | nil => exact absurd rfl hne | cons _ _ => rfl
+  have htorn : (fs.any (·.torn)) = false := by
+    rw [List.any_eq_false]; intro g hg; rw [hunt g hg]; simp
+  obtain ⟨hids, hrep⟩ := Replay.uncommitted_suffix_invisible
+    { opt := opt.core, files := fs, activeFid := (fs.map (·.fid)).foldl max 0, hintFid := (fs.map (·.fid)).foldl max 0,
+      writeOff := fileEnd ((fileGet? fs ((fs.map (·.fid)).foldl max 0)).getD { fid := (fs.map (·.fid)).foldl max 0, recs := [] }),
+      actualSize := fileEnd ((fileGet? fs ((fs.map (·.fid)).foldl max 0)).getD { fid := (fs.map (·.fid)).foldl max 0, recs := [] }),
+      committed := (committedIds (L ++ E)).eraseDups, opened := true } L E hEs hEf
+  have hv : ∀ x ∈ L, (committedIds L).contains x.1.txid = true := fun x hx => by simpa using hLc x hx
+  unfold openDB
+  simp only [hens, hemp, Bool.false_eq_true, if_false, htorn, hrecs]
+  rw [hrep]
+  obtain ⟨h1, h2, h3, h4, _, _, _, _, _⟩ := replay_any L (committedIds L)
+    { opt := opt.core, files := fs, activeFid := (fs.map (·.fid)).foldl max 0, hintFid := (fs.map (·.fid)).foldl max 0,
+      writeOff := fileEnd ((fileGet? fs ((fs.map (·.fid)).foldl max 0)).getD { fid := (fs.map (·.fid)).foldl max 0, recs := [] }),
+      actualSize := fileEnd ((fileGet? fs ((fs.map (·.fid)).foldl max 0)).getD { fid := (fs.map (·.fid)).foldl max 0, recs := [] }),
+      committed := (committedIds (L ++ E)).eraseDups, opened := true } hm hv hnp
+  refine ⟨h1, by rw [h2]; rfl, by rw [h3]; rfl, ?_⟩
+  intro id
+  rw [h4, hids]
+  simp
+
+/-- **Crash inside Commit, any structures.** From a state with the invariant, a transaction with a fresh id
+starts to commit and the process dies after `j` of its records — none of them the last — reached the files.
+`Open` (key+value mode) on what is left succeeds and rebuilds the key/value index, the lists, the sets, the
+sorted sets and the committed ids of the state before the transaction. -/
+theorem crash_in_commit_any (s : State) (h : AllInv s) (t : List Rec) (tid : Nat) (j : Nat)
+    (ht : ∀ r ∈ t, r.txid = tid ∧ r.status = 0)
+    (hfresh : ∀ x ∈ allRecs s.files, x.1.txid ≠ tid) (opt : Opts) (hm : opt.mode = 0) :
+    (openDB opt (crashAfterA s t j).files).2 = .ok () ∧
+    (openDB opt (crashAfterA s t j).files).1.kv = normKV s.kv ∧
+    sv (openDB opt (crashAfterA s t j).files).1 = sv s ∧
+    (∀ id, id ∈ (openDB opt (crashAfterA s t j).files).1.committed ↔ id ∈ s.committed) := by
+  have htake : ∀ r ∈ t.take j, r.txid = tid ∧ r.status = 0 := fun r hr => ht r (List.mem_of_mem_take hr)
+  obtain ⟨hshape, extra, hex, hfiles⟩ := crash_shape_any (t.take j) s h.shape
+  obtain ⟨pre, f, hf, _, _⟩ := hshape.split
+  have hE : ∀ x ∈ extra, x.1.txid = tid ∧ x.1.status = 0 := by
+    intro x hx
+    have : x.1 ∈ t.take j := by rw [← hex]; exact List.mem_map.mpr ⟨x, hx, rfl⟩
+    exact htake x.1 this
+  obtain ⟨h1, h2, h3, h4⟩ := open_ignores_suffix_any (crashAfterA s t j).files opt hm (allRecs s.files) extra
+    (by unfold crashAfterA; rw [hf]; simp) hshape.untorn hfiles h.allCommitted h.noPanic
+    (fun x hx => (hE x hx).2) (fun x hx y hy => by rw [(hE x hx).1]; exact hfresh y hy)
+  refine ⟨h1, by rw [h2, h.idx], by rw [h3, h.structs], ?_⟩
+  intro id; rw [h4 id, h.ids id]
 
 end NutsProofs.ReopenAll
